@@ -6,8 +6,8 @@ for l in open('/verif/properties.jsonl'):
     p = json.loads(l)
     if p['id'] == pid:
         break
-rnd = 4 if '--round4' in sys.argv else (3 if '--round3' in sys.argv else (2 if '--round2' in sys.argv else 1))
-d = {1: '/tmp/mut/', 2: '/tmp/mut2/', 3: '/tmp/mut3/', 4: '/tmp/mut4/'}[rnd] + pid.lower()
+rnd = 5 if '--round5' in sys.argv else 4 if '--round4' in sys.argv else (3 if '--round3' in sys.argv else (2 if '--round2' in sys.argv else 1))
+d = {1: '/tmp/mut/', 2: '/tmp/mut2/', 3: '/tmp/mut3/', 4: '/tmp/mut4/', 5: '/tmp/mut5/'}[rnd] + pid.lower()
 already = ''
 if rnd >= 2:
     import glob, os
